@@ -16,7 +16,7 @@ def main(tier):
     from sweetpea._internal.core.generate import sample_ilp
     ck = Check("C28", tier, "other",
                "Contract on the OPB text: every rendered line is satisfied by an assignment iff the clause / cardinality request it renders is. "
-               "The real as_opb_string, combine_and_save_opb and sample_ilp.update_file are run on every clause over ids <= 5 with <= 4 literals, "
+               "The real as_opb_string, combine_and_save_opb and sample_ilp.update_file are run on every clause (multiset of literals: repeated and complementary literals included) over ids <= 5 with <= 3 (thorough 4) literals, "
                "every request (kind, n <= 6, k <= 8) and blocking constraints for all solutions of support <= 5; the text is evaluated by an "
                "independent pseudo-Boolean evaluator under ALL assignments (truth table: complete per shape, bounded in shape).")
     ck.under_contract("sweetpea._internal.core.cnf:CNF.as_opb_string", "sweetpea._internal.core.generate.utility:combine_and_save_opb",
@@ -30,9 +30,8 @@ def main(tier):
     bad = None
     n_cl = 0
     for size in range(1, 5 if big else 4):
-        for cl in itertools.combinations(lits, size):
-            if len({abs(l) for l in cl}) != len(cl):
-                continue
+        # every multiset of literals: distinct variables, a variable in both polarities (tautological clause), a repeated literal
+        for cl in itertools.combinations_with_replacement(lits, size):
             n_cl += 1
             text = CNF([list(cl)]).as_opb_string()
             cons = opb.parse(text)
@@ -54,7 +53,8 @@ def main(tier):
     # a CNF of several clauses: conjunction
     rng = random.Random(seed())
     for _ in range(200 if not big else 1500):
-        cls = [[rng.choice([-1, 1]) * v for v in rng.sample(range(1, nv + 1), rng.randint(1, 3))] for _ in range(rng.randint(1, 4))]
+        cls = [[rng.choice([-1, 1]) * v for v in (rng.sample(range(1, nv + 1), rng.randint(1, 3)) if rng.random() < 0.6 else [rng.randint(1, nv) for _ in range(rng.randint(1, 4))])]
+               for _ in range(rng.randint(1, 4))]
         text = CNF(cls).as_opb_string()
         cons = opb.parse(text)
         for bits in itertools.product([False, True], repeat=nv):
